@@ -37,9 +37,10 @@ pub fn make_module() -> KMap {
 
         match map_instance_and_args(ctx, expected_error)? {
             (KValue::Map(m), [KValue::Map(other)]) => {
+                // `other` may be the same map as `m`, so release its data before extending
+                let other_data = other.data().clone();
                 m.data_mut().extend(
-                    other
-                        .data()
+                    other_data
                         .iter()
                         .map(|(key, value)| (key.clone(), value.clone())),
                 );
@@ -50,27 +51,28 @@ pub fn make_module() -> KMap {
                 let iterable = iterable.clone();
                 let iterator = ctx.vm.make_iterator(iterable)?;
 
-                {
-                    let mut map_data = m.data_mut();
-                    let (size_hint, _) = iterator.size_hint();
-                    map_data.reserve(size_hint);
+                // The iterator may access the map (e.g. `m.extend m.iter()`),
+                // so collect its output before borrowing the map's data.
+                let (size_hint, _) = iterator.size_hint();
+                let mut entries = Vec::with_capacity(size_hint);
 
-                    for output in iterator {
-                        use KIteratorOutput as Output;
-                        let (key, value) = match output {
-                            Output::ValuePair(key, value) => (key, value),
-                            Output::Value(KValue::Tuple(t)) if t.len() == 2 => {
-                                let key = t[0].clone();
-                                let value = t[1].clone();
-                                (key, value)
-                            }
-                            Output::Value(value) => (value, KValue::Null),
-                            Output::Error(error) => return Err(error),
-                        };
+                for output in iterator {
+                    use KIteratorOutput as Output;
+                    let (key, value) = match output {
+                        Output::ValuePair(key, value) => (key, value),
+                        Output::Value(KValue::Tuple(t)) if t.len() == 2 => {
+                            let key = t[0].clone();
+                            let value = t[1].clone();
+                            (key, value)
+                        }
+                        Output::Value(value) => (value, KValue::Null),
+                        Output::Error(error) => return Err(error),
+                    };
 
-                        map_data.insert(ValueKey::try_from(key.clone())?, value);
-                    }
+                    entries.push((ValueKey::try_from(key.clone())?, value));
                 }
+
+                m.data_mut().extend(entries);
 
                 Ok(KValue::Map(m))
             }
